@@ -66,6 +66,12 @@ func (x *fleetExec) chmap(e engine.Event, nd *knode, sig string) bool {
 	identity := false
 	if scale == 1 {
 		x.lib("Equals", sig, func() { identity = nd.mapping.Equals(nm) })
+		if diff, ok := clearlyDifferent(&nd.spec, spec, true); identity && ok && diff {
+			// the library's word is taken only where the two mappings are within its tolerance of each other:
+			// a request for a clearly different mapping is a conversion and is checked as one
+			identity = false
+			x.st.Probe("chmap-equals-disagrees-with-specs")
+		}
 	}
 	if !identity {
 		// resource guards: size of the result and fan-out of one source bin
